@@ -267,6 +267,9 @@ def run(tier, seed, replay=None):
         except Exception as ex:
             V.fail("gauge measurement raises %s" % type(ex).__name__, {"N": N_, "exc": str(ex)[:200]})
     dist["mixed-gauge isometry (centre_core_error) measured"] = n_gauge
+    import staleprobe
+    n_stale = staleprobe.run_block(V, random.Random(seed + 91), torch, torchtt, "round / norm / full", ["svd", "svd-ttm", "cores", "svd"], 8 if tier == "quick" else 60)
+    dist["read-mutate-read probe: read-outs compared"] = n_stale
     nviol = V.finish()
     cov = proofcheck.coverage(PID, obl, translation=tr_cov, evaluations=n, distinct_nontrivial=len(set(json.dumps(m[0], sort_keys=True, default=str) for m in replay_meta)),
         rule=("x.round(eps, rmax) on TT tensors and TT matrices of order 1..7 built from cores: random, inflated (block-diagonal self-sum of an exactly low-rank tensor), "
